@@ -275,3 +275,78 @@ def lemma_first_last_bounds(reg, repo):
 
 
 LEMMAS["first_last_bounds"] = lemma_first_last_bounds
+
+
+# ----------------------------------------------------------------------------------------------------------------------
+# root_attach, choosing the target (`if t_l < tree_min or t_r > tree_max: continue` and the call of lca): with the tokens
+# numbered 1..n, a boundary beyond the sentence is skipped, otherwise the two subscripts are in range and pick the tokens
+# numbered t_l and t_r -- two distinct tokens of this tree, which is what the lemmas target_exists and
+# target_not_below_child assume about the arguments of lca.
+# ----------------------------------------------------------------------------------------------------------------------
+def lemma_neighbours(reg, repo):
+    import ast
+    from pyvc.core import Contract, Exec, State
+    from pyvc.sym import Unsupported, qforall, toint
+    from contracts.common import terms_facts
+    from contracts import c19
+    add_common(reg)
+    c19.build(reg)
+    qual = "trees.transform.root_attach"
+    info = repo.fns.get(qual)
+    if info is None:
+        raise Unsupported("function %s no longer exists" % qual)
+    block = None
+    for node in ast.walk(info.node):
+        body = getattr(node, "body", None)
+        if not isinstance(body, list):
+            continue
+        for i, s in enumerate(body):
+            if isinstance(s, ast.Assign) and ast.unparse(s.targets[0]) == "target" and "trees.lca(" in ast.unparse(s.value) \
+                    and i > 0 and isinstance(body[i - 1], ast.If) and "tree_min" in ast.unparse(body[i - 1].test):
+                block = body[i - 1:i + 1]
+    if block is None:
+        raise Unsupported("the target selection of root_attach was not found (the contract no longer binds)")
+    c = Contract(target=qual, prop="C12", args={}, loops={})
+    ex = Exec(repo, reg, info, c, prefix="C12.neighbours")
+    H = Heap.fresh("N")
+    st = State(heap=H)
+    for t in H.typing():
+        st.assume(t)
+    tree = VRef(z3.Int(fresh_name("n_tree")))
+    T = H.terms(tree)
+    t_l, t_r = VInt(z3.Int(fresh_name("n_t_l"))), VInt(z3.Int(fresh_name("n_t_r")))
+    j = z3.Int(fresh_name("nj"))
+    st.assume(z3.And(tree.t != 0, tobool(WF(H, tree)), H.parent_t(tree.t) == 0))
+    st.assume(tobool(wf_theory(H)))
+    st.assume(tobool(terms_facts(H, tree)))
+    st.assume(qforall([j], z3.Implies(z3.And(0 <= j, j < T.n), H.num(T.get(j)).t == j + 1), [T.get(j).t]))   # 1..n
+    # t_l is one less than the child's least number, t_r at least one more than its greatest
+    st.assume(t_l.t + 2 <= t_r.t)
+    st.env.update(dict(tree=tree, tree_terms=T, tree_min=VInt(H.num(T.get(0)).t), tree_max=VInt(H.num(T.get(T.n - 1)).t),
+                       t_l=t_l, t_r=t_r))
+    ex.entry_heap = H.copy()
+    ex.obligations = []
+    outs = ex._with_raises(st, ex.exec_block(block, st))
+    vcs = []
+    for oi, o in enumerate(outs):
+        if o.kind == "continue":
+            vcs.append(("path%d.skipped_exactly_when_a_neighbour_lies_beyond_the_sentence" % oi, list(o.st.pc),
+                        z3.Or(t_l.t < 1, t_r.t > T.n)))
+            continue
+        if o.kind != "normal":
+            raise Unsupported("the target selection leaves by %s" % o.kind)
+        # the values of the two argument expressions of the call, as written in the code
+        call = block[1].value
+        a, b = ex.ev(call.args[0], o.st), ex.ev(call.args[1], o.st)
+        vcs.append(("path%d.neighbours_are_the_tokens_numbered_t_l_and_t_r_two_distinct_tokens_of_this_tree" % oi,
+                    list(o.st.pc), z3.And(
+                        1 <= t_l.t, t_r.t <= T.n, H.num(a).t == t_l.t, H.num(b).t == t_r.t, a.t != b.t,
+                        tobool(WF(H, a)), tobool(WF(H, b)), H.nchild_t(a.t) == 0, H.nchild_t(b.t) == 0,
+                        tobool(desc(H, tree, a)), tobool(desc(H, tree, b)))))
+    for ob in ex.obligations:
+        vcs.append(("step.%s" % ob.name.split(".", 2)[-1], list(ob.pc), ob.goal))
+    return vcs
+
+
+lemma_neighbours.target = "trees.transform.root_attach"
+LEMMAS["neighbours"] = lemma_neighbours
